@@ -1,5 +1,5 @@
 (* C04 — Experiments cannot wedge: quiescence implies a verdict; no hot loop. *)
-From KV Require Import Base.Prelude Base.Cond Model.World Proofs.WorldPlan Proofs.EqbRefl Proofs.WorldInv2 Proofs.WorldInv5 Proofs.WorldQuiet Proofs.F18.
+From KV Require Import Base.Prelude Base.Cond Model.World Proofs.WorldPlan Proofs.EqbRefl Proofs.WorldInv2 Proofs.WorldInv5 Proofs.WorldQuiet Proofs.F18 Proofs.WorldSucc.
 Open Scope Z_scope.
 
 (* The trial controller is never what wedges an experiment: a created, non-completed trial whose job is absent, or
@@ -54,6 +54,40 @@ Theorem C04_no_wedge_needs_hypothesis :
     e_completed (e_st e) = false.
 Proof. exact f18_refutes. Qed.
 Print Assumptions C04_no_wedge_needs_hypothesis.
+
+(* Under resumePolicy Never and LongRunning the hypothesis IS an invariant of every reachable state: a Succeeded
+   suggestion means the experiment carries its verdict (and the policy is Never; under LongRunning the suggestion is
+   never marked Succeeded). *)
+Theorem C04_succeeded_means_verdict : forall c acts s,
+  valid_cfg c -> no_teardown acts -> c_resume c <> FromVolume ->
+  w_sug (run c acts) = Some s -> s_is (s_st s) SSucceeded = true ->
+  c_resume c = Never /\ exists e, w_exp (run c acts) = Some e /\ e_completed (e_st e) = true.
+Proof. exact succeeded_implies_verdict. Qed.
+Print Assumptions C04_succeeded_means_verdict.
+
+(* ... so that for these two policies the no-wedge theorem holds for every reachable state with only the fresh-names
+   assumption left: every history of the model (any interleaving of reconciles, writes, conflicts, injected failures,
+   cache syncs, job and metrics events, early stops, maxTrialCount raises) that ends quiescent with a finished
+   environment ends with a verdict. *)
+Theorem C04_no_wedge_never_longrunning : forall c acts e m,
+  valid_cfg c -> no_teardown acts -> c_resume c <> FromVolume ->
+  quiescent (run c acts) -> env_done (run c acts) ->
+  w_exp (run c acts) = Some e -> e_max e = Some m -> c_par c <= m ->
+  (forall s, w_sug (run c acts) = Some s -> NoDup (ss_names (s_st s))) ->
+  e_completed (e_st e) = true.
+Proof. exact no_wedge_reachable. Qed.
+Print Assumptions C04_no_wedge_never_longrunning.
+
+(* Non-vacuity: a concrete history (resumePolicy Never, one trial) meets every premise of the theorem above, with a
+   Succeeded suggestion. *)
+Theorem C04_no_wedge_premises_satisfiable :
+  valid_cfg never_cfg /\ no_teardown never_acts /\ c_resume never_cfg <> FromVolume /\
+  quiescent (run never_cfg never_acts) /\ env_done (run never_cfg never_acts) /\
+  exists e s, w_exp (run never_cfg never_acts) = Some e /\ e_max e = Some 1 /\ c_par never_cfg <= 1 /\
+              w_sug (run never_cfg never_acts) = Some s /\ NoDup (ss_names (s_st s)) /\ s_is (s_st s) SSucceeded = true /\
+              e_completed (e_st e) = true.
+Proof. exact no_wedge_premises_hold. Qed.
+Print Assumptions C04_no_wedge_premises_satisfiable.
 
 (* No hot loop: in a quiescent state a further reconcile of any controller attempts no write and changes nothing in the store. *)
 Theorem C04_no_hot_loop : forall w c key resp,
